@@ -21,6 +21,9 @@ type C18Case struct {
 	NoPost   bool   `json:"no_post,omitempty"`
 	BatchPtr bool   `json:"batch_ptr,omitempty"` // pass *BatchNode instead of the builder
 	InFlow   bool   `json:"in_flow"`
+	// ExecPath (leaf/flow nodes): 0 exec succeeds at once; 1 first attempt fails, retry succeeds
+	// (N=2); 2 every attempt fails and the fallback recovers.
+	ExecPath int `json:"exec_path,omitempty"`
 }
 
 type markNode struct {
@@ -36,7 +39,14 @@ func (m *markNode) Post(ctx context.Context, s *flyt.SharedStore, p, e any) (fly
 func (c *C18Case) build() flyt.Node {
 	switch c.Node {
 	case "leaf", "flow":
-		w := &WF{Nodes: []NodeSpec{{Leaf: &LeafSpec{Kind: c.LeafKind, Style: c.Style, N: 1, Visits: []VisitScript{{Action: c.PostAct, Exec: []Outcome{{Pay: 2}}}}}}}, Fuel: 100}
+		vs := VisitScript{Action: c.PostAct, Exec: []Outcome{{Pay: 2}}, Fb: Outcome{Pay: 3}}
+		switch c.ExecPath {
+		case 1:
+			vs.Exec = []Outcome{{Err: 2}, {Pay: 2}}
+		case 2:
+			vs.Exec = []Outcome{{Err: 1}}
+		}
+		w := &WF{Nodes: []NodeSpec{{Leaf: &LeafSpec{Kind: c.LeafKind, Style: c.Style, N: 2, Visits: []VisitScript{vs}}}}, Fuel: 100}
 		x := newWfExec(w)
 		if c.Node == "leaf" {
 			return x.nodes[0]
@@ -63,7 +73,7 @@ func checkC18(t *testing.T, c C18Case) Verdict {
 	node := c.build()
 	ctx := context.Background()
 	wantDefault := c.PostAct == "" || c.PostAct == "default" || (c.Node == "batch" && c.NoPost)
-	cls := []string{c.Node, "post=" + c.PostAct}
+	cls := []string{c.Node, "post=" + c.PostAct, fmt.Sprintf("exec-path-%d", c.ExecPath)}
 	if c.Node == "batch" {
 		cls = append(cls, fmt.Sprintf("n=%d", c.BatchN))
 	}
@@ -121,8 +131,14 @@ func TestC18(t *testing.T) {
 					styles = numStyles
 				}
 				for st := 0; st < styles; st++ {
-					run(C18Case{Node: "leaf", LeafKind: kind, Style: st, PostAct: act, InFlow: inFlow})
-					run(C18Case{Node: "flow", LeafKind: kind, Style: st, PostAct: act, InFlow: inFlow})
+					for path := 0; path < 3; path++ {
+						l := LeafSpec{Kind: kind, Style: st, N: 2}
+						if (path == 1 && l.effN() < 2) || (path == 2 && !l.hasFb()) {
+							continue // this kind cannot take that path to a successful run
+						}
+						run(C18Case{Node: "leaf", LeafKind: kind, Style: st, PostAct: act, InFlow: inFlow, ExecPath: path})
+						run(C18Case{Node: "flow", LeafKind: kind, Style: st, PostAct: act, InFlow: inFlow, ExecPath: path})
+					}
 				}
 			}
 			for n := 0; n <= 3; n++ {
@@ -138,7 +154,7 @@ func TestC18(t *testing.T) {
 			}
 		}
 	}
-	r.exhaustive(fmt.Sprintf("all node kinds/styles (plain, base, function-style, flow-as-node, batch with 9 prep forms x n in 0..3 x c in 0..2 x with/without post x builder/*BatchNode) x post in {\"\", default, custom} x {run directly, routed step of a flow}: %d configurations", k))
+	r.exhaustive(fmt.Sprintf("all node kinds/styles x exec path {succeeds, succeeds on retry, fallback recovers} (plain, base, function-style, flow-as-node, batch with 9 prep forms x n in 0..3 x c in 0..2 x with/without post x builder/*BatchNode) x post in {\"\", default, custom} x {run directly, routed step of a flow}: %d configurations", k))
 }
 
 func init() { registerReplay("C18", checkC18) }
